@@ -204,13 +204,69 @@ class C07(Check):
             for k, m in enumerate(semgen.enum_small_mrs(3)):
                 if k % 997 == off % 997 and len(m["rels"]) == 3:
                     yield {"kind": "mrs", "src": "enum", "m": m, "leqs": semgen.gen_leqs(rng, m)}
+        yield from self.big_cases(rng, tier)
         yield from self.random_cases(rng, n)
+
+    # large, densely linked structures — the same list in every run (the rng only
+    # decides orientation / order), then a random share inside random_cases
+    def big_cases(self, rng, tier):
+        def mrs(src, m, leqs=None):
+            return {"kind": "mrs", "src": src, "m": m, "leqs": semgen.gen_leqs(rng, m) if leqs is None else leqs}
+        sizes = [8, 12, 16, 24] + ([32, 40] if tier == "thorough" else [])
+        for n in sizes:
+            yield mrs("big-clique", semgen.gen_mrs_clique(n))
+            yield mrs("big-clique", semgen.gen_mrs_clique(n, rng, drop=0.0))             # shuffled
+            yield mrs("big-clique", semgen.gen_mrs_clique(n, rng, drop=0.3))             # near-clique
+            yield mrs("big-clique", semgen.gen_mrs_clique(n, rng, drop=0.6, shared_label=False))
+        for k in [10, 16, 20, 30] + ([45] if tier == "thorough" else []):
+            for kind in ("complete", "chords", "star", "ring", "two"):
+                m = semgen.gen_mrs_labels(k)
+                yield mrs("big-conjoin", m, semgen.gen_leqs_dense(k, kind))
+                yield mrs("big-conjoin", m, semgen.gen_leqs_dense(k, kind, rng))
+                yield {"kind": "dmrs", "src": "big-dmrs", "d": semgen.gen_dmrs_dense(k, kind)}
+                yield {"kind": "dmrs", "src": "big-dmrs", "d": semgen.gen_dmrs_dense(k, kind, rng)}
+        for depth in [50, 80] + ([200] if tier == "thorough" else []):
+            yield mrs("big-chain", semgen.gen_mrs_chain(depth))
+            yield mrs("big-chain", semgen.gen_mrs_chain(depth, rng, close_cycle=True))
+        for f in (12, 30, 60):
+            yield mrs("big-star", semgen.gen_mrs_star(f, rng))
+            yield mrs("big-star", semgen.gen_mrs_star(f, rng, scopal=True))
+
+    def random_big(self, rng):
+        r = rng.random()
+        if r < 0.3:
+            m = semgen.gen_mrs_clique(rng.randrange(8, 21), rng, drop=rng.choice([0.0, 0.2, 0.5]),
+                                      pendants=rng.random() < 0.8, shared_label=rng.random() < 0.7)
+            if rng.random() < 0.3:
+                m = semgen.mutate_mrs(rng, m)
+            return {"kind": "mrs", "src": "big-clique", "m": m, "leqs": semgen.gen_leqs(rng, m)}
+        if r < 0.55:
+            k = rng.randrange(8, 25)
+            kind = rng.choice(["complete", "chords", "star", "ring", "two"])
+            leqs = semgen.gen_leqs_dense(k, kind, rng)
+            if rng.random() < 0.3:        # thin out: several components
+                leqs = [e for e in leqs if rng.random() < 0.8]
+            return {"kind": "mrs", "src": "big-conjoin", "m": semgen.gen_mrs_labels(k), "leqs": leqs}
+        if r < 0.8:
+            d = semgen.gen_dmrs_dense(rng.randrange(8, 25), rng.choice(["complete", "chords", "star", "ring", "two"]), rng)
+            if rng.random() < 0.3:
+                d["links"] = [l for l in d["links"] if rng.random() < 0.8]
+            d["top"] = rng.choice([n["id"] for n in d["nodes"]])
+            return {"kind": "dmrs", "src": "big-dmrs", "d": d}
+        if r < 0.9:
+            m = semgen.gen_mrs_chain(rng.randrange(20, 70), rng, close_cycle=rng.random() < 0.3)
+            return {"kind": "mrs", "src": "big-chain", "m": m, "leqs": semgen.gen_leqs(rng, m)}
+        m = semgen.gen_mrs_star(rng.randrange(8, 40), rng, scopal=rng.random() < 0.5)
+        return {"kind": "mrs", "src": "big-star", "m": m, "leqs": semgen.gen_leqs(rng, m)}
 
     def random_cases(self, rng, n, kinds=None):
         for _ in range(n):
             r = rng.random()
             if kinds:
-                r = rng.choice([{"tree": 0.1, "mut": 0.4, "wild": 0.6, "dmrs": 0.9}[k] for k in kinds])
+                r = rng.choice([{"tree": 0.1, "mut": 0.4, "wild": 0.6, "dmrs": 0.9}.get(k, 2.0) for k in kinds])
+            if r > 1.0 or (not kinds and rng.random() < 0.03):
+                yield self.random_big(rng)
+                continue
             if r < 0.3:
                 m = semgen.gen_mrs_tree(rng)
                 yield {"kind": "mrs", "src": "tree", "m": m, "leqs": semgen.gen_leqs(rng, m)}
@@ -226,7 +282,8 @@ class C07(Check):
                 yield {"kind": "dmrs", "src": "dmrs", "d": semgen.gen_dmrs(rng)}
 
     def search_cases(self, rng, tier, n, seeds):
-        kinds = sorted({c.get("src") for c in seeds if c.get("src") in ("tree", "mut", "wild", "dmrs")})
+        kinds = sorted({c.get("src") for c in seeds if c.get("src") in
+                        ("tree", "mut", "wild", "dmrs", "big-clique", "big-conjoin", "big-dmrs", "big-chain", "big-star")})
         for c in seeds[:20]:
             if c["kind"] == "mrs":
                 for _ in range(20):
@@ -566,7 +623,11 @@ class C07(Check):
             return
         if case["kind"] == "mrs":
             m = case["m"]
-            inc("mrs:eps=%d" % len(m["rels"]))
+            ne = len(m["rels"])
+            inc("mrs:eps=%s" % (ne if ne <= 8 else "9-15" if ne <= 15 else "16-31" if ne <= 31 else "32-63" if ne <= 63 else "64+"))
+            nl = len(case.get("leqs", []))
+            if nl >= 10:
+                inc("mrs:leqs>=10")
             inc("mrs:hcons=%d" % min(len(m["hcons"]), 5))
             for k in ("connected", "complete", "unique", "plausible", "wf"):
                 inc("mrs:%s=%s" % (k, res[k]))
@@ -594,7 +655,10 @@ class C07(Check):
                 inc("mrs:cyclic-scopal-structure")
         else:
             d = case["d"]
-            inc("dmrs:nodes=%d" % len(d["nodes"]))
+            nn = len(d["nodes"])
+            inc("dmrs:nodes=%s" % (nn if nn <= 6 else "7-15" if nn <= 15 else "16-31" if nn <= 31 else "32+"))
+            if sum(1 for l in d["links"] if l[3] == "EQ") >= 20:
+                inc("dmrs:eq-links>=20")
             if "err" in res["scopes"]:
                 inc("dmrs:KeyError")
             else:
